@@ -17,7 +17,7 @@ ID = 'C17'
 TITLE = 'bitemporal store: reading as of T sees exactly what had been published by T'
 STATEMENT = ('bi_read(store, asof=T) = per date the latest non-NaN value published with stamp <= T (merge order breaks ties), '
              'no row for dates first published after T; what=0 = first published value; re-merging a stored version changes no read')
-LEAN_FILES = ['Basic', 'TSBasic', 'Bitemp', 'BitempDriver', 'BitempLemmas', 'BitempInv', 'BitempFrames', 'C17']
+LEAN_FILES = ['Basic', 'TSBasic', 'Bitemp', 'BitempDriver', 'BitempLemmas', 'BitempInv', 'BitempFrames', 'BitempCols', 'BitempFirstS', 'BitempEmb', 'C17']
 RULE = ('distinct protocol lines (a merge, a read or a spec read inside a publication history) on which the implementation '
         'returned a non-empty frame / series')
 TRUSTED = ['correspondence harness (pv.engine, pv.proto) and generators of pv.props.c17',
@@ -357,15 +357,15 @@ def frame_case(rng, ndates, width):
 def generate(rng, tier):
     n = 20 if tier == 'quick' else 400
     for nd in (3, 5, 25):
-        for _ in range(max(4, n // 4)):
+        for _ in range(max(3, n // 5)):
             yield index_case(rng, nd)
-        for _ in range(max(4, n // 4)):
+        for _ in range(max(3, n // 5)):
             yield stamped_case(rng, nd, 'bump')
         for _ in range(max(3, n // 6)):
             yield stamped_case(rng, nd, 'shift')
     for nd in (2, 4, 12):
         for w in (2, 3):
-            for _ in range(max(4, n // 4)):
+            for _ in range(max(3, n // 5)):
                 yield frame_case(rng, nd, w)
     # the witnesses of the frame theorems (frame_default_read_nan_overrides, frame_last_loses_value) and a one-column frame
     yield dict(tag='special-frame-nan-column', ordered=True, lines=[
